@@ -501,7 +501,7 @@ func (ex *Exec) loadLoc(st *State, loc *Loc) *Val {
 			return Select(Select(ex.elemArr(st, loc.Base, l.Path, l.Sort), loc.Arr), loc.Idx)
 		})
 	case LGlobal:
-		return ex.loadGlobal(st, loc)
+		return ex.readGlobal(st, loc)
 	}
 	panic("bad loc")
 }
